@@ -6,7 +6,8 @@
 (*  mode "read"   b, res            read_precomputed_mesh on byte string b  *)
 (*  mode "save"   vin, t, saved, b, res   save_mesh_as_precomputed, then    *)
 (*                                  read_precomputed_mesh on the file       *)
-(*  mode "affine" v, t, M, tr, res  affine_transform_mesh                   *)
+(*  mode "affine" v, t, M, sc, tr, res  affine_transform_mesh with the      *)
+(*                                  matrix sc.[M | tr], sc = <<num, den>>   *)
 (*  mode "tool"   mesh-to-precomputed on a GIfTI file                       *)
 (*  mode "vtk"    save_mesh_as_neuroglancer_vtk output lines                *)
 (*  mode "links"  link-mesh-fragments: directory tree before / after        *)
@@ -31,7 +32,7 @@ SaveClause(c) ==
 AffineClause(c) ==
   IF c.res.st # "ok" THEN "oracle:TransformRaised"
   ELSE IF ~c.res.exact THEN "oracle:VerticesMoved"
-  ELSE WindingClause(c.v, c.t, c.M, c.tr, c.res.v, c.res.t)
+  ELSE ScaledWindingClause(c.v, c.t, c.M, c.sc, c.tr, c.res.v, c.res.t)
 
 \* ---- mesh-to-precomputed -------------------------------------------------------
 \* every other key of the info file keeps its value (new keys are tolerated)
